@@ -125,7 +125,7 @@ func withWatchdog(f func() string) string {
 	select {
 	case r := <-ch:
 		return r
-	case <-time.After(10 * time.Second):
+	case <-time.After(60 * time.Second): // 100000-deep recursion of text/template takes seconds on a loaded machine
 		return "timeout"
 	}
 }
